@@ -945,3 +945,17 @@ B('C04', 'library statement with a wrong sign', 'library/int.json',
   '"prop": "n - m = 0 ⟷ -m = -n"', '"prop": "n - m = 0 ⟷ -m = n"', 'C04.M13', 'sub_move_0_l')
 B('C04', 'library statement: distributivity with a dropped factor', 'library/verit.json',
   '"prop": "¬(if P then Q else R) ⟷ P ∧ ¬Q ∨ ¬P ∧ ¬R"', '"prop": "¬(if P then Q else R) ⟷ P ∧ ¬Q ∨ ¬R"', 'C04.M13', 'verit_not_ite_eq')
+B('C20', 'substitution under a forall does not look at the substituted expressions', IEXPR,
+  "        if any(occurs_var(t, self.var.name) for t in inst.values()):\n            raise NotImplementedError\n", "", 'C20.P6', 'Forall.subst')
+B('C20', 'substitution under a forall does not look at the domain', IEXPR,
+  "        if self.var.name in inst:\n            raise NotImplementedError\n        # The bound", "        # The bound", 'C20.P6', 'Forall.subst')
+N('C20', 'capture test as a loop', IEXPR,
+  "        if any(occurs_var(t, self.var.name) for t in inst.values()):\n            raise NotImplementedError\n",
+  "        for t in inst.values():\n            if occurs_var(t, self.var.name):\n                raise NotImplementedError\n")
+B('C16', 'input rows inserted without gcd reduction', 'prover/omega.py',
+  "        df = dfactoid(ft, ASM(ft))\n        # Reduce gcd, as for derived factoids: the analysis of a single\n        # variable relies on unit coefficients.\n        g = functools.reduce(gcd, df.factoid[:-1], 0)\n        if g > 1:\n            elim_gcd_factoid = [i // g for i in df.factoid]\n            df = dfactoid(Factoid(elim_gcd_factoid), GCDCheck(df.deriv))\n        insert_db(db, df)",
+  "        insert_db(db, dfactoid(ft, ASM(ft)))", 'C16.O5', 'solve_matrix')
+B('C16', 'gcd of derived rows without the initial value', 'prover/omega.py',
+  "            g = functools.reduce(gcd, df.factoid[:-1], 0)\n            if g > 1:", "            g = functools.reduce(gcd, df.factoid[:-1])\n            if g > 1:", 'C16.O5', 'extend_cross_product')
+N('C16', 'gcd of derived rows over absolute values', 'prover/omega.py',
+  "            g = functools.reduce(gcd, df.factoid[:-1], 0)\n            if g > 1:", "            g = functools.reduce(gcd, [abs(c) for c in df.factoid[:-1]])\n            if g > 1:")
